@@ -84,8 +84,6 @@ def op_c2http(kind):
         if kind == "aes":
             h = call(c2.C2Http, cfg, aes_key=KEY, hmac_key=HKEY)
         elif kind == "rand":
-            if not is_native():
-                MC.new_env()
             h = call(c2.C2Http, cfg, aes_rand=KEY)
         else:
             priv, _ = CB.rsa_keypair()
@@ -103,8 +101,6 @@ def op_profile(cfg):
 
 
 def op_client(cfg):
-    if not is_native():
-        MC.new_env()
     cl = call(client.HttpBeaconClient)
     call(I.getattr(cl, "run"), cfg, dry_run=True, beacon_id=4242, pid=1234, computer="PC", user="bob", process="a.exe",
          internal_ip="10.1.2.3", arch="x64", domain="c2.example.org")
@@ -156,6 +152,8 @@ def make_block(ctx, family):
 
 def h_history(names, family):
     def body(ctx):
+        if not is_native():
+            MC.new_env()  # one table of uninterpreted-function applications per path
         cells = make_block(ctx, family)
         block = V.unwrap(SymBytes(cells))
         cfg = call(BeaconConfig, block)
@@ -172,6 +170,8 @@ def h_history(names, family):
 
 def h_mutation():
     def body(ctx):
+        if not is_native():
+            MC.new_env()
         cfg = call(BeaconConfig, V.unwrap(SymBytes(make_block(ctx, 0))))
         for view in ("settings", "settings_by_index", "raw_settings", "raw_settings_by_index"):
             m = I.getattr(cfg, view)
@@ -207,6 +207,10 @@ def instances(tier):
     out.append(Instance("mappings reject mutation", h_mutation(), dict(kind="mutation")))
     for i in out:
         i.native_patches = [(c2, "random", models_lib.RandomShim)]
+        ops = i.params.get("ops", [])
+        if sum(o in ("client dry run", "profile") for o in ops) >= 2:
+            i.split = 10  # the forks of the two heavy operations multiply: hand sub-trees back to the scheduler
+            i.params["cost"] = 50
     return out
 
 
